@@ -184,6 +184,10 @@ func checkC04(c *Ctx) {
 	c.As(map[string]string{"R6.3": "R4.16"}, func() { c6Write(c) })
 	c.Rule("R4.15", "an observer branch hands out a copy of its entries, or its array after giving it up: entries a tee delivers later never overwrite the ones already taken", 2)
 	c8ObserverHandsOutOwnStorage(c, "R4.15")
+	c.Rule("R4.17", "the lazily derived core is built exactly once whatever the number of goroutines that use it first (sync.Once): a second first user never sees a core that is not there yet and loses its entry", 3)
+	c.As(map[string]string{"R7.6": "R4.17"}, func() { c7Lazy(c) })
+	c.Rule("R4.18", "Check discipline of every Core: a core that declines hands back the checked entry it was given - returning nil would discard what the other branches of a tee had registered", 8)
+	c.As(map[string]string{"R5.1": "R4.18"}, func() { c5CheckDiscipline(c) })
 	// R4.8, R4.14
 	c.Rule("R4.14", "every access to the buffered syncer's state - its bufio writer included - holds its mutex (a flush that runs beside a Write makes bufio drop or tear the line being buffered)", 10)
 	c12Rules(c, "R4.14", "R4.8", "", "", "")
